@@ -5,7 +5,7 @@ OBJS = {1: ("enc_dec_segments", ["Source/Lib/Encoder/Codec/EbEncDecSegments.c:en
         3: ("picture_buffer_desc", ["Source/Lib/Common/Codec/EbPictureBufferDesc.c:svt_picture_buffer_desc_ctor", "Source/Lib/Common/Codec/EbPictureBufferDesc.c:svt_picture_buffer_desc_dctor"], "8x8 4:2:0, 8/10 bit, every plane mask, split mode on/off"),
         4: ("output_bitstream_unit", ["Source/Lib/Common/Codec/EbBitstreamUnit.c:output_bitstream_unit_ctor"], "buffer 1..64 bytes")}
 META = {
-    "level_text": "Fault enumeration by solver: each real constructor runs under the real EB_NEW protocol with EVERY subset of its allocations / mutex / semaphore creations failing (nondeterministic per request), then the real destructor chain; assertions: error reported, no NULL dereference / invalid free (CBMC pointer checks), no allocation or OS object left. Plus svt_create_thread under every pthread_create outcome.",
+    "level_text": "Fault enumeration by solver: each real constructor runs under the real EB_NEW protocol with exactly one of its allocation / mutex / semaphore creation requests failing -- the k-th, k a solver variable covering every position, or none, then the real destructor chain; assertions: error reported, no NULL dereference / invalid free (CBMC pointer checks), no allocation or OS object left. Plus svt_create_thread under every pthread_create outcome.",
     "level_note": "Object sizes are small (8x8 pictures, <=3x3 segment grids, <=2 pool objects); failures during svt_av1_enc_init as a whole are covered only constructor by constructor for the listed objects. malloc/calloc/posix_memalign/realloc are routed through harness/common/alloc_model.h by macro.",
     "technique": "CBMC bounded symbolic execution with a symbolic failure decision per allocation request; replay under ASan/LSan",
     "assumptions": ["EbThreads.c replaced by harness/common/threads_model.h (creation may fail)"],
@@ -15,7 +15,7 @@ def queries(tier, fail=1, prefix="fail_"):
     qs = []
     for k, (n, funcs, b) in OBJS.items():
         qs.append(Query(name=prefix + n, harness="C16/ctors.c", defines=["OBJ=%d" % k, "FAIL=%d" % fail], unwind=4 if k in (1, 2) else 12, funcs=funcs,
-                        bound=b + ("; any subset of allocation/OS-object requests fails" if fail else "; no failures"),
+                        bound=b + ("; the k-th allocation/OS-object request fails, all k" if fail else "; no failures"),
                         what="construction failure is reported and unwound without crash or leak" if fail else "constructor+destructor release every allocation, mutex and semaphore",
                         timeout=600))
     if fail:
